@@ -367,10 +367,17 @@ where
                     // (packed rows need one `b`), the first step's operands are sometimes reused
                     // (de-duplication of steps, shared prefixes)
                     let len = rng.range(1, 6);
+                    // sometimes alpha is a fresh private input whose first use is the chain's first
+                    // step (the step then *creates* `b` on the bus; marker u32::MAX - j)
+                    let fresh_alpha = rng.chance(1, 5);
+                    if fresh_alpha {
+                        extra_priv = Some(F::from_u64(small(rng)));
+                        pending.push(Call::Priv);
+                    }
                     let al = pick(rng, &ids);
                     let (pz0, px0) = (pick(rng, &ids), pick(rng, &ids));
                     for j in 0..len {
-                        let alj = if rng.chance(1, 8) { pick(rng, &ids) } else { al };
+                        let alj = if fresh_alpha { u32::MAX - j as u32 } else if rng.chance(1, 8) { pick(rng, &ids) } else { al };
                         let (pz, px) = if j == 0 || rng.chance(1, 10) { (pz0, px0) } else { (pick(rng, &ids), pick(rng, &ids)) };
                         pending.push(Call::Horner(if j == 0 { 0 } else { u32::MAX }, alj, pz, px));
                     }
@@ -570,7 +577,10 @@ where
                     fix(a, &last);
                     fix(bb, &last);
                 }
-                Call::Horner(acc, ..) => fix(acc, &last),
+                Call::Horner(acc, al, ..) => {
+                    fix(acc, &last);
+                    fix(al, &last);
+                }
                 _ => {}
             }
             if let Some(v) = extra_pub.take() {
